@@ -17,6 +17,8 @@ type Atom struct {
 	Kind string // "digest" | "hex" | "tok"
 	Info string // digest: algorithm
 	Tag  string // taint / provenance label for C11-style checks
+	// Payload carries the bytes behind a "b64" token
+	Payload []Value
 }
 
 type Seg struct {
@@ -320,6 +322,9 @@ func atomEq(a, b *Atom) *smt.T {
 	}
 	if a.Kind != b.Kind || a.Len != b.Len || a.Info != b.Info {
 		return smt.False
+	}
+	if a.Kind == "b64" {
+		return payloadEq(a.Payload, b.Payload)
 	}
 	return smt.Eq(a.ID, b.ID)
 }
